@@ -104,14 +104,16 @@ CHECKS = {
             "assumptions": ["workload of about a dozen backend calls per configuration: every (k,m) with k+m <= 10 | 16 for rs_vand, isa_l_rs_vand, isa_l_rs_cauchy; flat_xor_hd (3,3,3) (5,5,3) (6,6,4); null (2,1); rs_vand (10,4) (4,10); isa_l_rs_vand (3,12) (+3 flat_xor_hd shapes in thorough); triples of faults for k+m <= 6 | 16",
                             "a backend 'failure' is a negative / NULL return of the operation-table entry (injected by the tap), plus the init failures the back ends report themselves for 11 refused configurations (unsupported flat-XOR shapes, null / isa-l word sizes); failures inside the plug-in's primitives (matrix inversion) are C19's subject",
                             "allocation failure is not injected"]},
-    "C18": {"runs": [{"name": "asan", "plan": "asan", "srcs": T_SRCS, "san": "asan", "hooks": True, "nosan": ("vsched.c",), "weight": 4, "opts": {"quick": {"bound": 2, "drivers": 7, "bound3": 1}, "thorough": {"bound": 3, "drivers": 10, "bound3": 2}}},
+    "C18": {"runs": [
                      {"name": "tsan", "plan": "tsan", "srcs": T_SRCS, "san": "tsan", "hooks": True, "nosan": ("vsched.c",), "opts": {"quick": {"bound": 1, "drivers": 7, "bound3": 1}, "thorough": {"bound": 2, "drivers": 10, "bound3": 1}}},
                      # data plane only, on instances created before the threads start: the threads take read locks only, so nothing orders them for TSan
                      # thorough: two preemptions on the three shared-descriptor drivers (Urs, Uxor, Uisa), one on the other five; TSan reports a
                      # data-plane race in every schedule anyway, the deeper bound is for the outputs
                      {"name": "tsan-data", "plan": "tsan", "srcs": T_SRCS, "san": "tsan", "hooks": True, "nosan": ("vsched.c",), "weight": 3, "opts": {"quick": {"bound": 1, "drvmask": 0x3fc00}, "thorough": {"bound": 2, "drvmask": 0x1c00}}},
                      {"name": "tsan-data-b1", "plan": "tsan", "srcs": T_SRCS, "san": "tsan", "hooks": True, "nosan": ("vsched.c",), "tiers": ("thorough",), "opts": {"thorough": {"bound": 1, "drvmask": 0x3e000}}},
-                     {"name": "asan-data", "plan": "asan", "srcs": T_SRCS, "san": "asan", "hooks": True, "nosan": ("vsched.c",), "opts": {"quick": {"bound": 1, "drvmask": 0x3fc00}, "thorough": {"bound": 1, "drvmask": 0x3fc00}}}],
+                     {"name": "asan-data", "plan": "asan", "srcs": T_SRCS, "san": "asan", "hooks": True, "nosan": ("vsched.c",), "opts": {"quick": {"bound": 1, "drvmask": 0x3fc00}, "thorough": {"bound": 1, "drvmask": 0x3fc00}}},
+                     # bound 3 on the life-cycle drivers is the most expensive run: last, with the largest share of whatever time is left
+                     {"name": "asan", "plan": "asan", "srcs": T_SRCS, "san": "asan", "hooks": True, "nosan": ("vsched.c",), "weight": 4, "opts": {"quick": {"bound": 2, "drivers": 7, "bound3": 1}, "thorough": {"bound": 3, "drivers": 10, "bound3": 2}}}],
             "level": "model_checking", "deadline": {"quick": 200, "thorough": 2400},
             "rule": ("stateless depth-first enumeration of all interleavings of 2-3 real threads under a serialising scheduler: scheduling points are the guarded yield hooks in the "
                      "registry and GF-table code and every rwlock/mutex operation (modelled, so a thread asking for a held lock is disabled); iterative preemption bounding; each "
